@@ -222,6 +222,11 @@ def _scribble_values(rnd: random.Random, kind: str, n: int, lo: int, hi: int,
 
 
 def execute(doc: dict) -> dict:
+    return core.confirm_on_legal_history(doc, _execute_full(doc),
+                                         _execute_full, ("scribble_scratch",))
+
+
+def _execute_full(doc: dict) -> dict:
     """Optionally followed by a twin: another instance with the SAME name,
     its own encoder and destinations (nothing keyed by the name may leak)."""
     name = packgen.scenario_name(doc)
